@@ -55,7 +55,7 @@ theorem rel_step_core (l : Label) (hR : R k s g j) (i1 : Inv1 s) (i2 : Inv2 s) (
   | expCall => exact Or.inl (rel_expCall hR i1 i2 i3 i4 hs)
   | expRelease => exact Or.inl (rel_expRelease hR i1 i2 i3 i4 hs)
   | pop => exact Or.inl (rel_pop hR i1 i2 i3 i4 hs)
-  | cbRead => exact Or.inl (rel_cbRead hR i1 i2 i3 i4 hc hs)
+  | cbRead => exact Or.inl (rel_cbRead hR i1 i2 i3 i4 hs)
   | cbDone => exact Or.inl (rel_cbDone hR i1 i2 i3 i4 hs)
   | peek => exact Or.inl (rel_peek hR hs)
 
@@ -73,8 +73,8 @@ theorem rel_abortRets (n : Nat) : ∀ {k : Nat} {j : J}, R (k + n) s g j →
 /-- the relation reads the ghost only through `abE` -/
 theorem R_congr_g {g1 g2 : G} (h1 : g1.abE = g2.abE) (h : R k s g1 j) :
     R k s g2 j := by
-  rcases h with ⟨⟨b1,b2,b3,b4,b5,b6,b7,b8,b9,b10,b11,b12,b13,b14,b15,b16,b17,b18⟩, hh, ht⟩
-  refine ⟨⟨b1,b2,b3,b4,b5,b6,b7,b8,b9,b10,b11,b12,b13,b14,?_,b16,b17,b18⟩, hh, ht⟩
+  rcases h with ⟨⟨b1,b2,b3,b4,b5,b6,b7,b8,b9,b10,b11,b12,b13,b14,b15,b16,b17,b18,b19,b20⟩, hh, ht⟩
+  refine ⟨⟨b1,b2,b3,b4,b5,b6,b7,b8,b9,b10,b11,b12,b13,b14,?_,b16,b17,b18,b19,b20⟩, hh, ht⟩
   rw [← h1]; exact b15
 
 /-- one step with the returns of `nng_aio_abort` observed at once (`obsX`) -/
